@@ -20,14 +20,14 @@ for sid in ids:
         status={'applies':False,'note':'patch no longer applies to /repo HEAD (the code it touched was changed by a later fix: commit); detection must be re-checked with an equivalent change'}
         out=''
     else:
-        r=run(f'cd {V} && checks/run.sh {prop} quick')
+        r=run(f'cd {V} && GVC_FAST=1 checks/run.sh {prop} quick')
         out=r.stdout
         vio=[l for l in out.splitlines() if l.startswith('VIOLATION')]
         status={'applies':True,'exit':r.returncode,'caught':r.returncode==1 and bool(vio),'violations':[l.split('obligation=')[1] if 'obligation=' in l else l for l in vio]}
         run('git -C /repo checkout -- .')
     meta={'seed':sid,'breaks_property':prop,'needs_to_manifest':NEEDS.get(sid,{}).get('needs',''),'change':NEEDS.get(sid,{}).get('change',''),
           'confirmed_by':'tools/confirm_seed.sh in a scratch worktree: builds, 133 pinned tests pass, demo passes without and fails with the change (see confirmation.txt)',
-          'checked_with':f'git -C /repo apply patch.diff; checks/run.sh {prop} quick; git -C /repo checkout -- .','result':status}
+          'checked_with':f'git -C /repo apply patch.diff; GVC_FAST=1 checks/run.sh {prop} quick (verdict only: no counterexample extraction, no replay); git -C /repo checkout -- .','result':status}
     json.dump(meta,open(d+'/meta.json','w'),indent=1)
     summary.append((sid,status.get('caught'),status.get('violations',status.get('note'))))
     print(sid, 'CAUGHT' if status.get('caught') else ('N/A' if not status.get('applies') else 'missed'), status.get('violations',''))
